@@ -187,23 +187,35 @@ PPCI_RANK = {'char': 30, 'uchar': 31, 'short': 40, 'ushort': 41, 'int': 50, 'uin
              'ulong': 61, 'llong': 70, 'ullong': 71}
 
 
-def ppci_promote(t):
-    return 'int' if rank(t) < 3 else t
+def ppci_promote(dm, t):
+    """CSemantics.promote (c83990b): unsigned int when the unsigned source type is as wide as int"""
+    if rank(t) >= 3:
+        return t
+    return 'uint' if (not signed(dm, t)) and nbits(dm, t) >= dm['int'] else 'int'
 
 
-def ppci_common(a, b):
-    return a if PPCI_RANK[a] >= PPCI_RANK[b] else b
+def ppci_common(dm, a, b):
+    """CSemantics._get_common_integer_type (c83990b)"""
+    r1, r2 = PPCI_RANK[a] // 10, PPCI_RANK[b] // 10
+    if signed(dm, a) == signed(dm, b):
+        return b if r2 > r1 else a
+    (s, sr, u, ur) = (a, r1, b, r2) if signed(dm, a) else (b, r2, a, r1)
+    if ur >= sr:
+        return u
+    if nbits(dm, s) > nbits(dm, u):
+        return s
+    return {'char': 'uchar', 'short': 'ushort', 'int': 'uint', 'long': 'ulong', 'llong': 'ullong'}[s]
 
 
 def sema_agrees(dm, e):
-    """True when ppci's expression typing (semantics.py with fixes/C27-sema-promotions.diff) coincides with
+    """True when ppci's expression typing (semantics.py with fixes/C27-sema-promotions.diff and c83990b) coincides with
     C's on every node of e (the fragment of theorem c27_eval_exact_partial; mirrors Model/CSema.sema_agrees)"""
     def pa(x):   # promotion agrees
         t = type_of(dm, x)
-        return ppci_promote(t) == promote(dm, t)
+        return ppci_promote(dm, t) == promote(dm, t)
     def ca(x, y):   # common type agrees
         tx, ty = type_of(dm, x), type_of(dm, y)
-        return pa(x) and pa(y) and ppci_common(ppci_promote(tx), ppci_promote(ty)) == uac(dm, promote(dm, tx), promote(dm, ty))
+        return pa(x) and pa(y) and ppci_common(dm, ppci_promote(dm, tx), ppci_promote(dm, ty)) == uac(dm, promote(dm, tx), promote(dm, ty))
     k = e[0]
     if k == 'lit':
         return True
